@@ -3,7 +3,7 @@
 From Coq Require Import List ZArith Bool Arith.
 From PV Require Import Xnum Select PyLib Select_proofs Loop Loop_proofs.
 From PVGen Require Import GenStop GenSchema GenHyper.
-From PVBridge Require Import LoopBridge C04Main.
+From PVBridge Require Import LoopBridge C04Main C04Example.
 
 (* the regenerated statement schema of optimize() is the one the model interprets *)
 Theorem C04_schema : gen_optimize_schema = optimize_schema.
@@ -78,3 +78,21 @@ Print Assumptions C04_stop_rule.
 Theorem C04_no_shared_mutable_state : gen_no_shared_mutable_state = true.
 Proof. reflexivity. Qed.
 Print Assumptions C04_no_shared_mutable_state.
+
+(* non-vacuity: a concrete optimizer / instance / configuration / call (a maximisation with ties whose population order changes every cycle) meets EVERY
+   hypothesis of C04_stop_rule, and the run of the regenerated schema on it evaluates to the outcome the theorem describes *)
+Theorem C04_hypotheses_satisfiable :
+  i_config _ _ _ ex_inst = Some ex_cfg /\ valid_args ex_args /\ 1 <= max_cycles ex_cfg /\
+  entry_state exA Z unit ex_before ex_init ex_after ex_inst = (tt, ex_p0, ex_p0) /\
+  populated exA Z Z.sub Z.abs Z.ltb Z.leb 0%Z 1%Z ex_avg unit ex_step ex_cfg tt ex_p0 ex_p0 /\
+  (forall k, costs_ok exA ex_cost (pop_at exA unit ex_step tt ex_p0 k)).
+Proof. exact hypotheses_satisfiable. Qed.
+Theorem C04_example_run_evaluates :
+  match ex_run with
+  | Done _ _ _ r _ K => K = 3 /\ r_best _ _ r = Some (XFin (-1)) /\ length (r_evolution _ _ r) = 4 /\
+                        last (r_evolution _ _ r) nil = (XFin (-2) :: XFin (-1) :: XFin (-1) :: XFin (-3) :: nil)
+  | _ => False
+  end.
+Proof. exact run_evaluates. Qed.
+Print Assumptions C04_hypotheses_satisfiable.
+Print Assumptions C04_example_run_evaluates.
